@@ -22,6 +22,7 @@ import (
 	"time"
 
 	"github.com/graphql-go/graphql"
+	"github.com/graphql-go/graphql/gqlerrors"
 	"github.com/graphql-go/graphql/language/ast"
 )
 
@@ -115,7 +116,27 @@ func c16Resolver(k int, cur **c16State) graphql.FieldResolveFn {
 	}
 }
 
-func c16Schema(cur **c16State) graphql.Schema {
+// a well-behaved extension with no result: registering it must not change what a cancelled call does
+type c16Ext struct{}
+
+func (c16Ext) Init(ctx context.Context, p *graphql.Params) context.Context { return ctx }
+func (c16Ext) Name() string                                                { return "c16-noop" }
+func (c16Ext) ParseDidStart(ctx context.Context) (context.Context, graphql.ParseFinishFunc) {
+	return ctx, func(error) {}
+}
+func (c16Ext) ValidationDidStart(ctx context.Context) (context.Context, graphql.ValidationFinishFunc) {
+	return ctx, func([]gqlerrors.FormattedError) {}
+}
+func (c16Ext) ExecutionDidStart(ctx context.Context) (context.Context, graphql.ExecutionFinishFunc) {
+	return ctx, func(*graphql.Result) {}
+}
+func (c16Ext) ResolveFieldDidStart(ctx context.Context, info *graphql.ResolveInfo) (context.Context, graphql.ResolveFieldFinishFunc) {
+	return ctx, func(interface{}, error) {}
+}
+func (c16Ext) HasResult() bool                           { return false }
+func (c16Ext) GetResult(ctx context.Context) interface{} { return nil }
+
+func c16Schema(cur **c16State, withExt bool) graphql.Schema {
 	g := graphql.NewScalar(graphql.ScalarConfig{
 		Name:      "G",
 		Serialize: func(v interface{}) interface{} { return v },
@@ -138,7 +159,11 @@ func c16Schema(cur **c16State) graphql.Schema {
 			Args:    graphql.FieldConfigArgument{"a": &graphql.ArgumentConfig{Type: g}},
 			Resolve: c16Resolver(k, cur)}
 	}
-	s, err := graphql.NewSchema(graphql.SchemaConfig{Query: graphql.NewObject(graphql.ObjectConfig{Name: "Query", Fields: fields})})
+	cfg := graphql.SchemaConfig{Query: graphql.NewObject(graphql.ObjectConfig{Name: "Query", Fields: fields})}
+	if withExt {
+		cfg.Extensions = []graphql.Extension{c16Ext{}}
+	}
+	s, err := graphql.NewSchema(cfg)
 	if err != nil {
 		panic(err)
 	}
@@ -186,6 +211,7 @@ type c16Trial struct {
 	Observe bool   `json:"observe"`
 	Entry   string `json:"entry"` // Do, Execute, ExecutePlan
 	Plan    []bool `json:"plan"`
+	Ext     bool   `json:"ext,omitempty"`      // a well-behaved extension is registered in the schema
 	First   string `json:"first,omitempty"`    // race: which of open/cancel the driver does first
 	DelayUs int    `json:"delay_us,omitempty"` // race: busy wait between the two (diversifies who wins)
 	Trace   string `json:"trace"`
@@ -605,8 +631,10 @@ func c16Run(schema, replaySchema graphql.Schema, t *c16Trial, chCap int) (coq st
 }
 
 func genC16(tier string, seed uint64, nCases int, e *Emitter) {
-	schema := c16Schema(&c16Cur)
-	replaySchema := c16Schema(&c16Replay)
+	schema := c16Schema(&c16Cur, false)
+	replaySchema := c16Schema(&c16Replay, false)
+	schemaX := c16Schema(&c16Cur, true)
+	replaySchemaX := c16Schema(&c16Replay, true)
 	chCap := c16ChannelCap()
 	fails := 0
 	idx := uint64(0)
@@ -621,7 +649,11 @@ func genC16(tier string, seed uint64, nCases int, e *Emitter) {
 			t.Plan[i] = r.Intn(4) != 0
 		}
 		var coq, fail string
-		if p := guard(func() { coq, fail = c16Run(schema, replaySchema, &t, chCap) }); p != "" {
+		sc, rsc := schema, replaySchema
+		if t.Ext {
+			sc, rsc = schemaX, replaySchemaX
+		}
+		if p := guard(func() { coq, fail = c16Run(sc, rsc, &t, chCap) }); p != "" {
 			fail = p
 		}
 		if fail != "" {
@@ -629,6 +661,9 @@ func genC16(tier string, seed uint64, nCases int, e *Emitter) {
 		}
 		nt := t.Point == "res" || t.Point == "race" || t.Point == "vars" || t.Point == "vars-fail"
 		tags := []string{"n=" + fmt.Sprint(t.N), "point=" + t.Point, "kind=" + t.Kind, "entry=" + t.Entry}
+		if t.Ext {
+			tags = append(tags, "extension-registered")
+		}
 		if t.Observe {
 			tags = append(tags, "resolvers-observe-ctx")
 		} else {
@@ -657,6 +692,10 @@ func genC16(tier string, seed uint64, nCases int, e *Emitter) {
 					for k := 1; k <= n; k++ {
 						emit(c16Trial{N: n, Point: "res", K: k, Kind: kind, Observe: obs, Entry: entry})
 					}
+					// with an extension registered: Done fires while the last resolver is blocked / during coercion
+					emit(c16Trial{N: n, Point: "res", K: n, Kind: kind, Observe: obs, Entry: entry, Ext: true})
+					emit(c16Trial{N: n, Point: "vars", Kind: kind, Observe: obs, Entry: entry, Ext: true})
+					emit(c16Trial{N: n, Point: "after", Kind: kind, Observe: obs, Entry: entry, Ext: true})
 				}
 			}
 		}
@@ -683,6 +722,6 @@ func genC16(tier string, seed uint64, nCases int, e *Emitter) {
 		if r.Bool() {
 			first = "cancel"
 		}
-		emit(c16Trial{N: 1 + r.Intn(4), Point: "race", Kind: kinds[r.Intn(2)], Observe: r.Bool(), Entry: entries[r.Intn(3)], First: first, DelayUs: r.Intn(8) * r.Intn(60)})
+		emit(c16Trial{N: 1 + r.Intn(4), Point: "race", Kind: kinds[r.Intn(2)], Observe: r.Bool(), Entry: entries[r.Intn(3)], First: first, DelayUs: r.Intn(8) * r.Intn(60), Ext: r.Intn(3) == 0})
 	}
 }
